@@ -21,7 +21,9 @@ import numpy as np
 
 from vcommon import Run, tlc, require_tlc_ok, import_hvsrpy, main_wrapper, workdir, REPO
 
-FS = {"mseed1": 100.0, "mseed3": 50.0, "sac_le": 200.0, "sac_be": 40.0, "saf": 128.0, "minishark": 250.0, "peer": 50.0}
+# "all sampling rates": also rates whose sampling interval is not a whole number of microseconds (75, 30, 128, 300 Hz)
+FS = {"mseed1": [100.0, 75.0, 128.0], "mseed3": [50.0, 30.0, 300.0], "sac_le": [200.0], "sac_be": [40.0], "saf": [128.0, 75.0, 100.0],
+      "minishark": [250.0, 75.0], "peer": [50.0]}
 
 
 def vectors(rng, n, integer):
@@ -36,7 +38,7 @@ def write_case(c, wd, rng, eol):
     from obspy import Trace, Stream, UTCDateTime
     fmt, perm, defect, names = c["fmt"], c["perm"], c["defect"], c["names"]
     n = int(rng.randint(40, 90))
-    fs = FS[fmt]
+    fs = float(FS[fmt][rng.randint(len(FS[fmt]))])
     stem = os.path.join(wd, f"{fmt}_{''.join(map(str, perm))}_{c['nv']}_{defect.replace('+', 'p').replace('-', 'm')}")
     if fmt in ("mseed1", "mseed3", "sac_le", "sac_be"):
         vec = vectors(rng, n, False)
